@@ -474,6 +474,7 @@ pub fn c16_case(rs: u64, _nonce: u64, replay: Option<Vec<u32>>) -> CaseOutcome {
             coe.policy = policy.clone();
             coe.mutations = muts.iter().cloned().collect();
             coe.endless_segments = endless;
+            coe.endless_segments_empty = crate::tape::gen() >= 2 && endless && s.w.sim.tape.flag(40, 100, "endless_segments_empty");
             coe.endless_fragments = endless;
             coe.endless_payload = s.w.sim.tape.pick(&[2usize, 0, 6], "endless_payload");
             coe.info_fragment = s.w.sim.tape.pick(&[0usize, 2, 4, 6, 10], "info_fragment");
@@ -507,6 +508,7 @@ pub fn c16_case(rs: u64, _nonce: u64, replay: Option<Vec<u32>>) -> CaseOutcome {
             let coe = d.coe.as_mut().unwrap();
             coe.mutations.clear();
             coe.endless_segments = false;
+            coe.endless_segments_empty = false;
             coe.endless_fragments = false;
             coe.endless_active = false;
             while coe.next_queued().is_some() {}
